@@ -152,7 +152,8 @@ func (f fetch) label() string {
 	return fmt.Sprintf("fetch:%s:%s:%s:v%d:w%v", f.K, f.E, f.N, f.V, f.W)
 }
 
-var variantNames = []string{"none", "W-sealed matching", "W-sealed other nonce", "W-sealed other key", "foreign-wrapper sealed matching", "re-wrapped by R matching", "re-wrapped by R other nonce", "re-wrapped under unregistered key id"}
+var variantNames = []string{"none", "W-sealed matching", "W-sealed other nonce", "W-sealed other key", "foreign-wrapper sealed matching", "re-wrapped by R matching", "re-wrapped by R other nonce", "re-wrapped under unregistered key id",
+	"junk sealed info + self-supplied clear registration info", "W-sealed other nonce + self-supplied clear registration info", "self-supplied clear registration info only"}
 
 func (w *world) otherNonce(n string) []byte {
 	if n == "N1" {
@@ -178,8 +179,19 @@ func (w *world) request(s *state, f fetch) *types.FetchNodeCredentialsRequest {
 	case 4:
 		info.WrappedRegistrationInfo = harness.SealRegistrationInfo(w.wx, k.Pkix, nonce)
 	}
+	if f.V >= 8 {
+		// the clear form of the registration info is a field of the bundle the
+		// requester signs: a requester without access to the KMS fills it in itself
+		info.WrappingRegistrationFlowInfo = &types.WrappingRegistrationFlowInfo{CertificatePublicKeyPkix: k.Pkix, Nonce: nonce}
+		switch f.V {
+		case 8:
+			info.WrappedRegistrationInfo = []byte("not a sealed blob")
+		case 9:
+			info.WrappedRegistrationInfo = harness.SealRegistrationInfo(w.w, k.Pkix, w.otherNonce(f.N))
+		}
+	}
 	req := harness.SignedRequest(info, k)
-	if f.V >= 5 {
+	if f.V >= 5 && f.V <= 7 {
 		// R re-wraps with the key it shares with the server. R's node-side view
 		// is rebuilt from pool keys and the server public key of R's record
 		// (present in the initial store of every run that uses these variants).
@@ -303,13 +315,13 @@ func menusFor(c *engine.Ctx) menus {
 		return menus{
 			opKeys: []string{"K1", "K2"}, fetchKeys: []string{"K1", "K2", "K3"}, encs: []string{"E1", "E2"},
 			opNonces: []string{"N1", "N2"}, fetchNonces: []string{"N1", "N2", "T1", "T2", "Tx", "Tg"},
-			variants: []int{0, 1, 2, 3, 4, 5, 6, 7}, tokens: []string{"T1", "T2"}, depth: 4,
+			variants: []int{0, 1, 2, 3, 4, 5, 6, 7, 8, 9, 10}, tokens: []string{"T1", "T2"}, depth: 4,
 		}
 	}
 	return menus{
 		opKeys: []string{"K1", "K2"}, fetchKeys: []string{"K1", "K2", "K3"}, encs: []string{"E1", "E2"},
 		opNonces: []string{"N1", "N2"}, fetchNonces: []string{"N1", "N2", "T1", "Tx"},
-		variants: []int{0, 1, 2, 3, 5, 6}, tokens: []string{"T1"}, depth: 3,
+		variants: []int{0, 1, 2, 3, 5, 6, 8, 9, 10}, tokens: []string{"T1"}, depth: 3,
 	}
 }
 
@@ -423,7 +435,7 @@ func (w *world) explore(c *engine.Ctx, r *engine.Report, hasR bool) {
 			for _, n := range m.fetchNonces {
 				for _, v := range m.variants {
 					for _, wOn := range []bool{false, true} {
-						if v >= 5 && wOn {
+						if v >= 5 && v <= 7 && wOn {
 							continue // the wrapper is not consulted on the re-wrapped path
 						}
 						fetches = append(fetches, fetch{k, e, n, v, wOn})
@@ -544,7 +556,7 @@ func init() {
 	engine.Register(&engine.CheckDef{
 		ID:    "C01",
 		Level: "model_checking",
-		Rule: "BFS over operator actions {authorize(K,E,N), create token, remove node (including the re-wrapping node), age past the token lifetime} and every well-signed fetch request from {K1,K2,K3}x{E1,E2}x{N1,N2,T1,T2,forged token,garbage}x{8 wrapped / re-wrapped variants}x{registration wrapper configured or not} (quick: reduced menus, depth 3; thorough: full menus, depth 4 - the full-menu fixpoint has > 70000 states x 576 fetch shapes and does not finish in the thorough budget), from two initial states (re-wrapping node R registered or not); state key = per key (nonce id, encryption key id) of its record, per token status, all record ids; " +
+		Rule: "BFS over operator actions {authorize(K,E,N), create token, remove node (including the re-wrapping node), age past the token lifetime} and every well-signed fetch request from {K1,K2,K3}x{E1,E2}x{N1,N2,T1,T2,forged token,garbage}x{11 wrapped / re-wrapped / self-supplied-clear-info variants}x{registration wrapper configured or not} (quick: reduced menus, depth 3; thorough: full menus, depth 4 - the full-menu fixpoint has > 70000 states x 576 fetch shapes and does not finish in the thorough budget), from two initial states (re-wrapping node R registered or not); state key = per key (nonce id, encryption key id) of its record, per token status, all record ids; " +
 			"states/transitions are counted by the search; distinct_nontrivial = distinct (oracle branch, request class) pairs observed",
 		Assumptions: []string{"a 'forged' request is one assembled from other pool members; signature forgery is outside the model", "the canonical key drops the server encryption key, certificate bundles and state of a record: no transition or oracle of this check reads them"},
 		Shards:      func(c *engine.Ctx) int { return 2 },
